@@ -82,6 +82,7 @@ def fmt_num(v, style=0):
 
 
 INT_DELAY_STYLE = [False]
+SPLIT_DELAY_STYLE = [False]
 
 
 def to_str(e, pow_sym='**', sp=' ', paren=False, numstyle=0, rnd=None, top=True):
@@ -105,6 +106,13 @@ def to_str(e, pow_sym='**', sp=' ', paren=False, numstyle=0, rnd=None, top=True)
             if PAST_STYLE[0] == 't-':
                 return f"{e[2][1]}(t-{dtxt})"
             return f"past({to_str(e[2], pow_sym, sp, paren, numstyle, rnd, True)},{sp if sp else ''}{dtxt})"
+        if e[1] == 'past' and PAST_STYLE[0] == 't-' and SPLIT_DELAY_STYLE[0] and e[3][0] == 'num' and float(e[3][1]) > 0:
+            # a delay written as a difference chain, x(t-0.004-0.003): x at time t-(0.004+0.003)
+            d_ = float(e[3][1])
+            a_ = float(f"{0.6 * d_:.3g}")
+            b_ = float(f"{d_ - a_:.12g}")
+            if a_ > 0 and b_ > 0:
+                return f"{e[2][1]}(t-{a_!r}-{b_!r})"
         if e[1] == 'past' and PAST_STYLE[0] == 't-':
             return f"{e[2][1]}(t-{to_str(e[3], pow_sym, sp, paren, numstyle, rnd, True)})"
         args = (',' + (sp if sp else '')).join(to_str(a, pow_sym, sp, paren, numstyle, rnd, True) for a in e[2:])
